@@ -14,6 +14,12 @@ Theorem c05_versions_table : sanity_versions = [1%N].
 Proof. exact sanity_versions_is_spec. Qed.
 Print Assumptions c05_versions_table.
 
+(** The code has the mechanism the model mirrors (structural facts regenerated
+    from Unmarshal's and Marshal's statements). *)
+Theorem c05_mechanism : forallb snd keyid_mechanism_facts = true /\ length keyid_mechanism_facts = 6%nat.
+Proof. exact mechanism_facts_hold. Qed.
+Print Assumptions c05_mechanism.
+
 (** Encoding succeeds exactly when the version is supported and the attributes
     are consistent (headless excludes hardware-key and firefighter and requires
     never-touch; nonce excludes firefighter and headless and requires
